@@ -144,6 +144,25 @@ CLAIMS = {
              "(Resolve by tag needs the optional Docker-Content-Digest header) is matched by signature. Fixed in /repo: F11. "
              "Histories are sequential; ManifestMediaTypes and custom page sizes are not varied yet.",
         ref="3 C13", technique=TECH + " (RegistryMon.tla: exchanges replayed on the registry model, API results judged)"),
+    "C14": dict(
+        text="Referrers.tla models syncutil.Merge's batching protocol (assign / commit / complete with the pending queue), the index "
+             "read-modify-write and the deletion of the superseded index for NP concurrent pushes/deletions, every pre-existing "
+             "index and every interleaving (IndexExact, NoDangling in every quiescent state); Capability.tla models "
+             "SetReferrersCapability / Referrers / Push / Delete as their loads, requests and compare-and-swaps with a registry that "
+             "may change its answer (Monotone; EvidenceSound validates the monitor's rules). A real remote.Repository is driven "
+             "against the in-process registry without the Referrers API: 2-6 concurrent pushes/deletions of referrers of one or "
+             "two subjects, HTTP exchanges scheduled at a gate under synctest plus un-gated parallel rounds, pre-existing indexes "
+             "with duplicates and empty entries, an injected failure of the old-index deletion, SkipReferrersGC; ReferrersMon.tla "
+             "judges the listing seen by a fresh Repository against the live manifests (each once, artifact type, annotations), "
+             "dangling indexes, and the index-delete error; capability rounds (unconfigured Repository, concurrent "
+             "SetReferrersCapability/Referrers/Push/Delete, registry flipping its answer) are judged by CapabilityMon.tla.",
+        note="Equality with 'what a registry with the Referrers API would list' is judged as equality with the live manifests naming "
+             "the subject and their artifact type/annotations, which is what the in-process registry's Referrers API lists (C13 "
+             "validates that registry against Registry.tla). A Delete that returns the index-delete error leaves its manifest in "
+             "place (Delete stops at the error): such a referrer may or may not be listed. Schedules are controlled at HTTP "
+             "exchanges only: races inside Merge between exchanges and between loadReferrersState and the compare-and-swap are "
+             "explored in the model, not forced in the code. Failures of index fetch/push are not injected yet.",
+        ref="3 C14", technique=TECH + " (ReferrersMon.tla / CapabilityMon.tla over gate-scheduled concurrent rounds)"),
     "C15": dict(
         text="PagingModel.tla gives the distribution specification's paginating server and the client loop as functions; "
              "Paging.tla checks over the full case space (list of <= 3-4 items, last, client page size, server cap, Link form "
